@@ -82,7 +82,7 @@ impl Sandbox {
             .join("work")
             .join(format!("sb-{}-{}-{}", tag, std::process::id(), n));
         let _ = std::fs::remove_dir_all(&root);
-        for d in ["home", "config", "data", "ws", "dicts", "filedicts"] {
+        for d in ["home", "config", "data", "ws", "ws/project/src", "dicts", "filedicts"] {
             let _ = std::fs::create_dir_all(root.join(d));
         }
         Sandbox { root }
@@ -212,7 +212,9 @@ impl Server {
             .env("XDG_DATA_HOME", sb.root.join("data"))
             .env("XDG_CACHE_HOME", sb.root.join("home/.cache"))
             .env_remove("RUST_LOG")
-            .current_dir(sb.root.join("ws"))
+            // the editor was started somewhere inside the project, not in a directory that sits
+            // next to the dictionaries
+            .current_dir(sb.root.join("ws/project/src"))
             .stdin(Stdio::piped())
             .stdout(Stdio::piped())
             .stderr(Stdio::null());
